@@ -444,24 +444,34 @@ Definition fault_next (v : vstate) (o : op) : vstate :=
   end.
 
 (* what the driver tracks on top: has the current log failed (FailStop / poison: every later append
-   is refused before a byte is written), has the memtable thread died (every later flush is refused) *)
-Record xstate := mkX { x_v : vstate; x_log_ok : bool; x_flush_ok : bool }.
+   is refused before a byte is written), has the memtable thread died (every later flush is
+   refused), has a call on the manifest failed (poisoned: the model does not follow flushes and
+   compactions any further) *)
+Record xstate := mkX { x_v : vstate; x_log_ok : bool; x_flush_ok : bool; x_mani_ok : bool }.
 
 (* the calls of the next operation; None: outside what the model continues (a flush while the log
-   has failed rolls over to a new log and then dies sealing the old one) *)
+   has failed rolls over to a new log and then dies sealing the old one; a poisoned manifest) *)
 Definition xop_prog (x : xstate) (s : fs) (o : op) : option (prog * bool) :=
   match o with
   | OpWrite _ => if x_log_ok x then Some (op_prog (x_v x) s o) else Some ([], false)
-  | OpFlush => if x_flush_ok x then (if x_log_ok x then Some (op_prog (x_v x) s o) else None) else Some ([], false)
-  | OpCompact _ _ _ => Some (op_prog (x_v x) s o)
+  | OpFlush => if x_flush_ok x
+               then (if x_log_ok x && x_mani_ok x then Some (op_prog (x_v x) s o) else None)
+               else Some ([], false)
+  | OpCompact _ _ _ => if x_mani_ok x then Some (op_prog (x_v x) s o) else None
   end.
 
-Definition xnext_ok (x : xstate) (o : op) : xstate := mkX (op_next (x_v x) o) (x_log_ok x) (x_flush_ok x).
-Definition xnext_err (x : xstate) (o : op) : xstate :=
+Definition xnext_ok (x : xstate) (o : op) : xstate := mkX (op_next (x_v x) o) (x_log_ok x) (x_flush_ok x) (x_mani_ok x).
+(* hit_mani: the failing call was one on the manifest *)
+Definition hits_mani (p : prog) (k : nat) : bool :=
+  match nth_error p k with
+  | Some (COpenAppend NMani, _) | Some (CWrite NMani _, _) | Some (CSync NMani, _) => true
+  | _ => false
+  end.
+Definition xnext_err (x : xstate) (o : op) (hit_mani : bool) : xstate :=
   match o with
-  | OpWrite _ => mkX (fault_next (x_v x) o) false (x_flush_ok x)
-  | OpFlush => mkX (x_v x) (x_log_ok x) false
-  | OpCompact _ _ _ => x
+  | OpWrite _ => mkX (fault_next (x_v x) o) false (x_flush_ok x) (x_mani_ok x)
+  | OpFlush => mkX (x_v x) (x_log_ok x) false (x_mani_ok x && negb hit_mani)
+  | OpCompact _ _ _ => mkX (x_v x) (x_log_ok x) (x_flush_ok x) (x_mani_ok x && negb hit_mani)
   end.
 
 (* the names recovery reads *)
